@@ -316,6 +316,36 @@ Section cyg.
 End cyg.
 
 (* ---------------------------------------------------------------- the push-only-on-accept shape (-pg, fentry) *)
+Lemma state_trig_false tr : state_trig tr = false ->
+  t_filter tr = None /\ t_depth tr = None /\ t_time tr = None /\ t_size tr = None.
+Proof.
+  unfold state_trig. destruct (t_filter tr) as [[|]|], (t_depth tr), (t_time tr), (t_size tr); intro H;
+    try discriminate H; auto.
+Qed.
+
+Lemma entry_check_nostate c s0 a :
+  let '(s, v, tr, sv) := entry_check c s0 a in
+  v = V_OUT -> state_trig tr = false -> fc s = fc s0.
+Proof.
+  unfold entry_check.
+  pose proof (check_rstack_eqw c s0) as (F & _).
+  destruct (check_rstack c s0) as [s over]. cbn [fst] in F.
+  destruct over; [intros; discriminate|].
+  destruct (out_count (fc s) >? 0)%Z; [intros; exact F|].
+  remember (trig_of c a) as tr eqn:Etr. clear Etr.
+  match goal with |- context [if ?b then (_, V_OUT, tr, _) else _] => destruct b end.
+  - intros _ Hst. destruct (state_trig_false tr Hst) as (H1 & H2 & H3 & H4).
+    unfold with_fc. cbn [fc]. rewrite H1. exact F.
+  - match goal with |- context [if ?b then (_, V_OUT, tr, _) else _] => destruct b end;
+      [intros _ Hst; destruct (state_trig_false tr Hst) as (H1 & H2 & H3 & H4);
+       unfold with_fc; cbn [fc]; rewrite H1; exact F|].
+    match goal with |- context [if ?b then (_, V_OUT, tr, _) else _] => destruct b end.
+    + intros _ Hst. destruct (state_trig_false tr Hst) as (H1 & H2 & H3 & H4).
+      unfold with_fc. cbn [fc]. rewrite H1, H2, H3, H4. cbn [in_count out_count depth max_depth ftime fsize].
+      rewrite <- F. destruct (fc s); reflexivity.
+    + intros Hv. discriminate Hv.
+Qed.
+
 Section pg.
   Variable c : cfg.
   Hypothesis Hshape : shp c = PG.
@@ -337,13 +367,16 @@ Section pg.
         repeat split; [congruence|congruence|eapply eqw_trans; eassumption]. }
     cbn [flat]. unfold exec. cbn [fold_left dstep]. rewrite fold_left_app. cbn [fold_left].
     unfold hooked, do_enter. rewrite Hshape.
-    pose proof (entry_check_facts c s a) as H.
+    pose proof (entry_check_facts c s a) as H. pose proof (entry_check_nostate c s a) as NSt.
     destruct (entry_check c s a) as [[[s1 v] tr] sv]. destruct H as (E & R & HR & HN).
-    destruct v.
-    - (* accepted: frame pushed, exit hook runs *)
-      destruct HN as (Hsv & Hin & Hout); [discriminate|]. subst sv.
-      match goal with |- context [entry_record _ _ ?fr _ (?d0, ?m0, ?t0', ?z0)] =>
-        destruct (entry_record_entered c s s1 fr tr d0 m0 t0' z0 eq_refl E R eq_refl)
+    (* a frame is pushed (accepted call, or a rejected one whose trigger changed the state): its exit restores *)
+    assert (PUSH : forall fr, f_ghost fr = false -> v <> V_RSTACK ->
+              exists s', dstep c (fold_left (dstep c) (flat_map flat kids) (entry_record c s1 fr tr sv, true :: hk))
+                               (Leave t1) = (s', hk) /\
+                         fc s' = fc s /\ ridx s' = ridx s /\ eqw (stack s') (stack s)).
+    { intros fr Hg Hv. destruct HN as (Hsv & Hin & Hout); [exact Hv|]. subst sv.
+      match goal with |- context [entry_record _ _ fr _ (?d0, ?m0, ?t0', ?z0)] =>
+        destruct (entry_record_entered c s s1 fr tr d0 m0 t0' z0 eq_refl E R Hg)
           as (top & rest & S1 & E1 & G1 & F1 & Fl & Nt & D1 & M1 & T1 & Z1 & R1);
         set (s1' := entry_record c s1 fr tr (d0, m0, t0', z0)) in * end.
       destruct (RK s1' (true :: hk)) as (s2 & E2 & F2 & R2 & W2).
@@ -365,13 +398,18 @@ Section pg.
         | rewrite F2, F1, Hout; unfold delta_out; rewrite Fl, Nt; destruct (t_filter tr) as [[|]|]; reflexivity
         | exact D1 | exact M1 | exact T1 | exact Z1
         | rewrite R2; exact R1
-        | eapply eqw_trans; eassumption ].
-    - (* rejected by a filter: nothing pushed, and what the trigger changed is undone *)
-      match goal with |- context [fold_left _ _ (?st, _)] => set (s1' := st) end.
-      destruct (RK s1' (false :: hk)) as (s2 & E2 & F2 & R2 & W2).
-      unfold exec in E2. rewrite E2. cbn [dstep].
-      exists s2. split; [reflexivity|]. rewrite F2, R2. subst s1'. cbn [fc ridx stack] in *.
-      repeat split; [assumption|eapply eqw_trans; eassumption].
+        | eapply eqw_trans; eassumption ]. }
+    destruct v.
+    - (* accepted *)
+      apply PUSH; [reflexivity|discriminate].
+    - destruct (state_trig tr) eqn:ST.
+      + (* rejected, but its trigger changed the filter state: a NORECORD frame carries and restores it *)
+        apply PUSH; [reflexivity|discriminate].
+      + (* rejected without a state change: nothing pushed *)
+        destruct (RK s1 (false :: hk)) as (s2 & E2 & F2 & R2 & W2).
+        unfold exec in E2. rewrite E2. cbn [dstep].
+        exists s2. split; [reflexivity|]. rewrite F2, R2, (NSt eq_refl eq_refl).
+        repeat split; [assumption|eapply eqw_trans; eassumption].
     - (* beyond the stack limit: nothing changed *)
       destruct (RK s1 (false :: hk)) as (s2 & E2 & F2 & R2 & W2).
       unfold exec in E2. rewrite E2. cbn [dstep].
@@ -386,12 +424,12 @@ End pg.
    threshold and main disappeared from the trace. *)
 Definition leak_cfg : cfg :=
   mkcfg [(1, {| t_filter := None; t_depth := None; t_time := Some 1000; t_size := None;
-                t_trace_on := false; t_trace_off := false; t_trace := false; t_caller := false |})]
+                t_trace_on := false; t_trace_off := false; t_trace := false; t_caller := false; t_loc := None; t_finish := false |})]
         false false 1 0 1024 [] PG.
 Definition leak_events : list ev := [Enter 0 100; Enter 1 110; Leave 120; Leave 200].
 Definition cyg_of (c : cfg) : cfg :=
   {| trig_of := trig_of c; fmode_in := fmode_in c; has_caller := has_caller c; gdepth := gdepth c;
-     threshold := threshold c; max_stack := max_stack c; sym_size := sym_size c; shp := CYG |}.
+     threshold := threshold c; max_stack := max_stack c; sym_size := sym_size c; shp := CYG; lmode_in := lmode_in c |}.
 
 Lemma pg_leak_legacy_refuted :
   (* legacy: after b's entry was rejected the filter state differed from the state before the call ... *)
@@ -407,7 +445,7 @@ Proof. vm_compute. repeat split; congruence. Qed.
 (* `-T b@depth=0`: a later sibling c() in the same parent disappeared *)
 Definition leak2_cfg : cfg :=
   mkcfg [(1, {| t_filter := None; t_depth := Some 0; t_time := None; t_size := None;
-                t_trace_on := false; t_trace_off := false; t_trace := false; t_caller := false |})]
+                t_trace_on := false; t_trace_off := false; t_trace := false; t_caller := false; t_loc := None; t_finish := false |})]
         false false 1024 0 1024 [] PG.
 Lemma pg_leak2_legacy_refuted :
   let es := [Enter 0 100; Enter 1 110; Leave 120; Enter 2 130; Leave 140; Leave 200] in
